@@ -68,7 +68,8 @@ func c12Bases() []c12Base {
 				originDecl("account", "v", "meta", gen.Acct("b"), gen.Str("acc"))},
 				Stmts: []gen.Stmt{
 					&gen.Send{Sent: &gen.SentLit{E: v("m")}, Src: lst(&gen.SrcAccount{E: v("v")}, sa("a")), Dst: da("x")},
-					saveN(U, "1", "a")}}
+					saveN(U, "1", "a"),
+					sendN("EUR", "1", sa("a"), da("x"))}} // a second asset of an account whose first asset is already known
 		}, []string{"b.acc"}, map[string]string{"b.acc": "b"}},
 		{"meta-typed", func() *gen.Program {
 			return &gen.Program{Vars: []*gen.VarDecl{
@@ -309,7 +310,7 @@ func runC12(w *mc.Worker) {
 				if si != 0 {
 					dev++
 				}
-				bal := env.Bal{"a": {"USD": sheets[si].a}, "b": {"USD": sheets[si].b}}
+				bal := env.Bal{"a": {"USD": sheets[si].a, "EUR": bi(5)}, "b": {"USD": sheets[si].b}}
 				meta := env.Meta{}
 				for _, mk := range b.Meta {
 					parts := strings.SplitN(mk, ".", 2)
